@@ -9,6 +9,7 @@ import (
 	"path/filepath"
 	"reflect"
 	"strings"
+	"time"
 
 	"github.com/a-h/templ"
 	parser "github.com/a-h/templ/parser/v2"
@@ -129,6 +130,109 @@ func runC10(e *emitter, tier string, seed uint64) {
 		}
 	}
 	c10Renders(e, r, tier)
+	c10SilentWriters(e)
+}
+
+// silentWriter accepts the first limit bytes and from then on takes nothing (zero) or one byte (short) per call WITHOUT
+// returning an error - a writer that breaks the io.Writer contract (a wrapped connection that swallows its error). The
+// render must still end, and may return nil only if the writer got the whole document.
+type silentWriter struct {
+	limit int
+	zero  bool
+	got   []byte
+}
+
+func (w *silentWriter) Write(p []byte) (int, error) {
+	room := w.limit - len(w.got)
+	if room >= len(p) {
+		w.got = append(w.got, p...)
+		return len(p), nil
+	}
+	if room > 0 { // takes what still fits
+		w.got = append(w.got, p[:room]...)
+		return room, nil
+	}
+	if w.zero || len(p) == 0 {
+		return 0, nil
+	}
+	w.got = append(w.got, p[0]) // short: one byte per call from the limit on
+	return 1, nil
+}
+
+type silentStringWriter struct{ silentWriter }
+
+func (w *silentStringWriter) WriteString(s string) (int, error) { return w.Write([]byte(s)) }
+
+func c10SilentWriters(e *emitter) {
+	for _, size := range []int{100, 4095, 4096, 5000, 9000} {
+		for _, limit := range []int{0, 10, 4096} {
+			for _, zero := range []bool{true, false} {
+				for _, sw := range []bool{false, true} {
+					for _, via := range []string{"buffer-write", "buffer-writestring", "template"} {
+						key := fmt.Sprintf("silentw %d %d %v %v %s", size, limit, zero, sw, via)
+						if !e.mine(key) {
+							continue
+						}
+						text := strings.Repeat("abcdefghij", size/10+1)[:size]
+						var inner *silentWriter
+						var w io.Writer
+						if sw {
+							x := &silentStringWriter{silentWriter{limit: limit, zero: zero}}
+							inner, w = &x.silentWriter, x
+						} else {
+							inner = &silentWriter{limit: limit, zero: zero}
+							w = inner
+						}
+						doc := text
+						done := make(chan error, 1)
+						go func() {
+							defer func() {
+								if p := recover(); p != nil {
+									done <- fmt.Errorf("panic: %v", p)
+								}
+							}()
+							switch via {
+							case "template":
+								done <- tmpl.TextSink(text).Render(context.Background(), w)
+							default:
+								b, _ := templruntime.GetBuffer(w)
+								var err error
+								if via == "buffer-write" {
+									_, err = b.Write([]byte(text))
+								} else {
+									_, err = b.WriteString(text)
+								}
+								if rerr := templruntime.ReleaseBuffer(b); err == nil {
+									err = rerr
+								}
+								done <- err
+							}
+						}()
+						outcome := ""
+						select {
+						case err := <-done:
+							outcome = "nil"
+							if err != nil {
+								outcome = "error"
+							}
+						case <-time.After(2 * time.Second):
+							outcome = "hang" // the goroutine keeps spinning until the process ends
+						}
+						if via == "template" {
+							var sb strings.Builder
+							_ = tmpl.TextSink(text).Render(context.Background(), &sb)
+							doc = sb.String()
+						}
+						got := ""
+						if outcome != "hang" {
+							got = string(inner.got)
+						}
+						e.emit(key, "silentw", via, fmt.Sprint(size), fmt.Sprint(limit), fmt.Sprint(zero), fmt.Sprint(sw), outcome, b01(got == doc))
+					}
+				}
+			}
+		}
+	}
 }
 
 type c10Comp struct {
@@ -139,6 +243,35 @@ type c10Comp struct {
 
 // c10ExprLines parses the fixture source with the real parser and returns, for each expression that calls mayFail, the
 // 1-based source lines it covers ("34,35,36").
+// c10LinesOf: the 1-based source lines of the first expression of tmpl/render.templ that contains sub.
+func c10LinesOf(sub string) string {
+	root := os.Getenv("VERIF_ROOT")
+	if root == "" {
+		root = "/verif"
+	}
+	src, err := os.ReadFile(filepath.Join(root, "harness", "tmpl", "render.templ"))
+	if err != nil {
+		return "?"
+	}
+	tf, err := parser.ParseString(string(src))
+	if err != nil {
+		return "?"
+	}
+	var exprs []exprRef
+	var names []nameRef
+	walkTree(reflect.ValueOf(tf), "TemplateFile", &exprs, &names, 0)
+	for _, ex := range exprs {
+		if strings.Contains(ex.value, sub) {
+			var ls []string
+			for l := ex.rng.From.Line; l <= ex.rng.To.Line; l++ {
+				ls = append(ls, fmt.Sprint(l+1))
+			}
+			return strings.Join(ls, ",")
+		}
+	}
+	return "?"
+}
+
 func c10ExprLines() []string {
 	root := os.Getenv("VERIF_ROOT")
 	if root == "" {
@@ -192,6 +325,10 @@ func c10Components() []c10Comp {
 		{"style-fail", func() templ.Component { return tmpl.FailingStyle(true) }, lines[3]},
 		{"style-ok", func() templ.Component { return tmpl.FailingStyle(false) }, "-"},
 		{"join-generated", func() templ.Component { return templ.Join(tmpl.Leaf("a"), tmpl.Leaf("b")) }, "-"},
+		{"legacy-call-fail", func() templ.Component { return tmpl.FailingLegacyCall(true) }, "-"},
+		{"legacy-call-ok", func() templ.Component { return tmpl.FailingLegacyCall(false) }, "-"},
+		{"script-int-fail", func() templ.Component { return tmpl.FailingScriptInt(true) }, c10LinesOf("failingInt(")},
+		{"script-int-ok", func() templ.Component { return tmpl.FailingScriptInt(false) }, "-"},
 	}
 }
 
@@ -204,6 +341,8 @@ func c10OKVariants() map[string]func() templ.Component {
 		"flush-block-expr-fail":   func() templ.Component { return tmpl.FailingInFlush("x", false) },
 		"flush-block-nested-fail": func() templ.Component { return tmpl.FailingNestedInFlush(false) },
 		"style-fail":              func() templ.Component { return tmpl.FailingStyle(false) },
+		"legacy-call-fail":        func() templ.Component { return tmpl.FailingLegacyCall(false) },
+		"script-int-fail":         func() templ.Component { return tmpl.FailingScriptInt(false) },
 	}
 }
 
